@@ -691,6 +691,16 @@ def place_face(P, placement, seed):
         spin = ref.rot_z(float(rng.uniform(0, 360)))
         Q = P @ R.T @ spin.T
         Q[j] = tgt
+    elif placement in ("npole_inside_corner_lon0", "spole_inside_corner_lon180"):
+        # pole strictly inside and one corner exactly on the meridian lon = 0 (or 180): ray-casting degeneracy
+        rad = float(ref.angle(c, P[0]))
+        off = rad * float(rng.uniform(0.0, 0.5))
+        north = placement.startswith("npole")
+        Q = to(ll(float(rng.uniform(0, 360)), (90 - math.degrees(off)) if north else (-90 + math.degrees(off))))
+        j = int(rng.integers(0, k))
+        lonj = math.degrees(math.atan2(Q[j, 1], Q[j, 0]))
+        Q = Q @ ref.rot_z((0.0 if north else 180.0) - lonj).T
+        Q[j, 1] = 0.0
     elif placement == "across_180":
         Q = to(ll(180.0 + float(rng.uniform(-0.3, 0.3)) * math.degrees(float(ref.angle(c, P[0]))), float(rng.uniform(-60, 60))))
     elif placement == "across_0":
@@ -712,4 +722,4 @@ def place_face(P, placement, seed):
 
 
 FACE_PLACEMENTS = ["generic", "npole_inside", "spole_inside", "corner_npole", "corner_spole", "across_180", "across_0",
-                   "origin_inside", "near_npole", "near_spole", "equator"]
+                   "origin_inside", "near_npole", "near_spole", "equator", "npole_inside_corner_lon0", "spole_inside_corner_lon180"]
